@@ -1,4 +1,5 @@
 import PasetoModel.Asym
+import PasetoModel.SpecHeaders
 /-! # C03 — tokens are bit-exact PASETO; siblings interoperate
 The skeleton instantiated at `specCfg` is the specification model (written from the PASETO
 documents, 128-bit big-endian CTR counter); instantiated at `cfgOf b` it is the implementation
@@ -78,6 +79,10 @@ theorem spec_tokens_accepted (b : Backend) (hb : b ∈ Backend.all) (k n0 m f a 
            unsealLocal (localScheme b) (tokHdr b .localP) k tok f a = .ok m := by
   rw [← all_backends_spec b hb]
   exact PM.local_roundtrip _ (localSchemeOf_laws _ _) _ k n0 m f a hn ha
+
+/-- the token header strings the running code uses (regenerated into `Extracted/Headers.lean` on every
+    run) are the PASETO documents' -/
+theorem token_headers_are_spec : Spec.TokenHeadersConform := by decide
 
 /-! non-vacuity -/
 example : ctrVal 64 (2 ^ 64 - 1) 1 ≠ ctrVal 128 (2 ^ 64 - 1) 1 := by decide
